@@ -421,7 +421,7 @@ def r8_closure_wild(text):
     eds = []
     for mt in re.finditer(r"\|\s*_\s*\|", m):
         j = skip_ws_back(m, mt.start())
-        if j >= 0 and m[j] not in "(,=":
+        if j >= 0 and m[j] not in "(,=" and not re.search(r"(?<![A-Za-z0-9_])move\s*$", m[:mt.start()]):
             continue
         u = m.index("_", mt.start())
         eds.append(Edit(u, u + 1, "_e", "R8"))
